@@ -8,6 +8,7 @@ require (
 	github.com/kstenerud/go-compact-time v1.8.3
 	github.com/kstenerud/go-concise-encoding v0.0.0
 	github.com/kstenerud/go-describe v1.2.15
+	github.com/kstenerud/go-duplicates v1.1.1
 	github.com/kstenerud/go-uleb128 v1.1.0
 )
 
